@@ -173,16 +173,21 @@ LtText(L) == (IF L.entry.present THEN KwEntry \o <<40>> \o L.entry.name \o <<41,
              \o LtCat(Mk([k \in 1..Len(L.mems) |-> LtTextMem(L.mems[k])]), 1)
 
 \* ---- clauses: r = [text, want = the abstract layout the text was rendered from,
-\*      got = [ok, exc, layout, repr, eq (ppci's == with the layout built through the API), built_repr]] ----
+\*      got = [ok, exc, layout, repr, eq (ppci's == with the layout built through the API), built_repr,
+\*             eq_other / other_repr = the same for a layout that differs from it in one place]] ----
+\* (the printed form itself is not prescribed by the property: it has to be a faithful function of the
+\*  layout -- equal layouts print alike, a layout that differs prints differently; LtRepr above is the
+\*  form the classes use today and serves the model check of this module)
 LtFailures(r) ==
     LET S == LtParse(r.text) IN
     IF ~S.ok THEN Fails("LtRejects", TRUE)            \* texts outside the language: no verdict
     ELSE Fails("LtAccepts", r.got.ok)
          \cup (IF ~r.got.ok THEN {} ELSE
                Fails("LtParsed", r.got.layout = [entry |-> S.entry, mems |-> S.mems])
-               \cup Fails("LtPrinted", LtPrintable(S) => r.got.repr = LtRepr(S))
-               \cup Fails("LtRoundTrip", r.got.eq /\ r.got.built_repr = r.got.repr))
-LtClauses == {"LtAccepts", "LtParsed", "LtPrinted", "LtRoundTrip"}
+               \cup Fails("LtPrinted", r.got.built_repr = r.got.repr)
+               \cup Fails("LtRoundTrip", r.got.eq)
+               \cup Fails("LtDistinguishes", r.dom => ~r.got.eq_other /\ r.got.other_repr # r.got.repr))
+LtClauses == {"LtAccepts", "LtParsed", "LtPrinted", "LtRoundTrip", "LtDistinguishes"}
 \* the harness rendered the text from `want`: the specification must read it back as that (harness sanity)
 LtDomain(r) == LET S == LtParse(r.text) IN S.ok /\ [entry |-> S.entry, mems |-> S.mems] = r.want
 =============================================================================
